@@ -82,6 +82,8 @@ def run(ctx):
         cy = rs.randn(npol, n) + 1j * rs.randn(npol, n)
         if npol == 2 and it % 4 == 1:
             cx[1] = cx[0]                                   # twin signal rows, different noise rows
+        if npol == 2 and it % 4 == 3:
+            cx[it % 8 // 4] = 0                              # a dark polarisation in the signal that still carries noise (an x-only carrier behind an amplifier)
         mk = lambda s_, n_=None: protect(optical_signal(s_ if npol == 2 else s_[0], None if n_ is None else (n_ if npol == 2 else n_[0])))
         with deadline(120):
             Bx, By = BPF(mk(cx), BWo, order).signal, BPF(mk(cy), BWo, order).signal
